@@ -24,6 +24,10 @@ type Env struct {
 	Schema  *ast.Schema
 	Plan    *Plan
 	Binding func(objType, field string) Binding
+	// InFailedGroup (C13 only) says that response key `key` of the object at objPath belongs to a
+	// deferred group that was delivered with null data: such a field is null in the merged result
+	// and its failure does not propagate to the object.
+	InFailedGroup func(objPath, key string) bool
 }
 
 // Err is one expected error: the response path and a class. Class is the exact message for
@@ -41,6 +45,8 @@ type Result struct {
 	DirCalls []string // directive positions invoked
 	Panics   int
 	Groups   []*Group // deferred groups started (defer-aware mode)
+	// GroupViolation[objPath] is set when a field excused by InFailedGroup really violated non-null
+	GroupViolation map[string]bool
 }
 
 // Group is a deferred group as the reference sees it (used by C13).
@@ -206,7 +212,15 @@ func (e *exec) selectionSet(sel ast.SelectionSet, objType, objID, path string) (
 			merged = append(merged, ff.SelectionSet...)
 		}
 		v := e.field(objType, objID, fd, f, merged, fpath)
-		if v.IsNull() && fd.Type.NonNull {
+		if e.env.InFailedGroup != nil && e.env.InFailedGroup(path, g.key) {
+			if v.IsNull() && fd.Type.NonNull {
+				if e.res.GroupViolation == nil {
+					e.res.GroupViolation = map[string]bool{}
+				}
+				e.res.GroupViolation[path] = true
+			}
+			v = parsers.NewNull()
+		} else if v.IsNull() && fd.Type.NonNull {
 			invalid = true
 		}
 		obj.Set(g.key, v)
